@@ -668,6 +668,40 @@ def gen_long_client_scenario(rng, rounds=30, per_round=40):
     return dict(kind="uclient", datasets=[dict(name="A", quotes=quotes, style="date_major")], ops=ops, long_run=True)
 
 
+def oracle_long_history(sc, tr):
+    """direct reading on a long history (every order is a market order for a symbol quoted on every date, two ticks
+    follow the last order): every order is executed, so the ticks must have reported exactly one trade per order, for
+    its quantity — what a broker's cash and holdings ledgers are built from (C04, C05, C03)"""
+    if not sc.get("long_run") or any(isinstance(r, dict) and "panic" in r for r in tr["results"]):
+        return None
+    sent = [b2f(op["order"]["shares"]) for op in sc["ops"] if op["op"] == "insert"]
+    got = [b2f(t["quantity"]) for op, r in zip(sc["ops"], tr["results"]) if op["op"] == "tick" and "some" in r
+           for t in r["some"]["trades"]]
+    if len(got) != len(sent) or sorted(got) != sorted(sent):
+        return dict(what="%d market orders for a symbol quoted on every date were sent to one backtest, the ticks reported %d "
+                         "trades: executions are missing from (or duplicated in) what the client is told" % (len(sent), len(got)))
+    return None
+
+
+def run_long_history(res, prop, wd, seed, rounds, per_round):
+    """the long history alone, in lockstep with the model (used by the thorough tier of C04 / C05, whose ledgers are
+    built from what the ticks report)"""
+    sc = gen_long_client_scenario(random.Random(seed + 29), rounds=rounds, per_round=per_round)
+    tr = run_harness("server", [sc], wd, tag="long")[0]
+    failing = eval_cases(wd, "client_long", IMPORTS_CLIENT, [g_ccase(sc, tr)], "ccase_ok", per_shard_min=1)
+    cov = dict(long_history_requests=len(tr["results"]), long_history_mismatching=len(failing))
+    f = oracle_long_history(sc, tr)
+    if f:
+        res.violation(dict(kind="property-fails-on-implementation", component="uist-client", found_in="long history",
+                           failure=f, scenario=dict(sc, ops="%d requests: %d rounds of %d market orders and a tick (regenerate with "
+                                                            "server.gen_long_client_scenario)" % (len(sc["ops"]), rounds, per_round))), "violation")
+    elif failing:
+        res.violation(dict(kind="correspondence-or-refuted-theorem", component="uist-client",
+                           no_longer_checks=dict(theorem="Props/%s.v" % prop, lockstep="long history: responses differ from the model's"),
+                           scenario=None), "unproved", no_input=True)
+    return cov
+
+
 def g_client_res(op, r):
     """observed response of the client as an sres term"""
     o = op["op"]
@@ -784,7 +818,9 @@ def run_client_lockstep(res, prop, tier, seed, wd):
     rng = random.Random(seed + 23)
     n = tier_size(tier, 40, 600)
     scs = [gen_client_scenario(rng, big_batches=(i % 4 == 3)) for i in range(n)]
-    if tier == "thorough" or scale() > 1:
+    if tier == "thorough":
+        scs.append(gen_long_client_scenario(rng, rounds=225, per_round=50))     # > 11 000 trades on one exchange
+    elif scale() > 1:
         scs.append(gen_long_client_scenario(rng))
     # the same kind of history through the crate's reqwest Client over real HTTP on the loopback interface
     n_http = tier_size(tier, 8, 120)
@@ -815,7 +851,7 @@ def run_client_lockstep(res, prop, tier, seed, wd):
             return t
         found = None
         for i in failing:
-            f = oracle_client(prop, scs[i], trs[i], run_one)
+            f = oracle_long_history(scs[i], trs[i]) or oracle_client(prop, scs[i], trs[i], run_one)
             if f:
                 found = (i, f)
                 break
